@@ -32,7 +32,7 @@ void collect(const TasmanianSparseGrid &g, int d, CSet &out) {
 } // namespace
 
 void check_C08(Src &s, Ctx &ctx) {
-    SpecOpts so; so.min_outs = 1; so.max_outs = 2; so.cap = cfg().tier ? 900 : 250; so.transforms = false; so.conformal = false; so.limits = false;
+    SpecOpts so; so.min_outs = 1; so.max_outs = 2; so.cap = cfg().tier ? 350 : 250; so.transforms = false; so.conformal = false; so.limits = false;
     GridState st; st.cap = so.cap; st.ctx = &ctx;
     st.spec = decode_spec(s, so); st.vm.decode(s);
     int d = st.spec.dims;
